@@ -81,6 +81,81 @@ type PathState struct {
 	ndCounter  int
 	unknowns   []string
 	observe    []string
+	subst      map[*Term]*Term // facts implied by pc: term -> constant
+	simpMemo   map[*Term]*Term
+}
+
+// addFact records what the new path constraint pins down, for syntactic folding of later conditions.
+func (in *Interp) addFact(c *Term) {
+	p := in.path
+	if p.subst == nil {
+		p.subst = map[*Term]*Term{}
+	}
+	switch {
+	case c.IsConst():
+		return
+	case c.Op == OpNot:
+		p.subst[c.A[0]] = tFalse
+		if o := c.A[0]; o.Op == OpOr {
+			in.addFact(in.tc.Not(o.A[0]))
+			in.addFact(in.tc.Not(o.A[1]))
+		}
+	case c.Op == OpAnd:
+		p.subst[c] = tTrue
+		in.addFact(c.A[0])
+		in.addFact(c.A[1])
+	default:
+		p.subst[c] = tTrue
+		if c.Op == OpEq && c.A[1].IsConst() && !c.A[0].IsConst() {
+			p.subst[c.A[0]] = c.A[1]
+		}
+	}
+	p.simpMemo = nil
+}
+
+// simp rewrites t under the facts of the current path (sound: every fact is implied by pc).
+func (in *Interp) simp(t *Term) *Term {
+	p := in.path
+	if len(p.subst) == 0 || t.IsConst() {
+		return t
+	}
+	if p.simpMemo == nil {
+		p.simpMemo = map[*Term]*Term{}
+	}
+	return in.simpRec(t)
+}
+
+func (in *Interp) simpRec(t *Term) *Term {
+	p := in.path
+	if t.Op == OpConst {
+		return t
+	}
+	if r, ok := p.subst[t]; ok {
+		return r
+	}
+	if t.Op == OpVar {
+		return t
+	}
+	if r, ok := p.simpMemo[t]; ok {
+		return r
+	}
+	changed := false
+	args := make([]*Term, len(t.A))
+	for i, a := range t.A {
+		args[i] = in.simpRec(a)
+		if args[i] != a {
+			changed = true
+		}
+	}
+	r := t
+	if changed {
+		r = in.tc.Rebuild(t, args)
+		if r2, ok := p.subst[r]; ok {
+			r = r2
+		}
+	}
+	p.simpMemo[t] = r
+	return r
 }
 
 var tagRe = regexp.MustCompile(`[^A-Za-z0-9_]`)
@@ -130,6 +205,7 @@ func (in *Interp) addPC(c *Term) {
 	}
 	p.pc = append(p.pc, c)
 	in.solver.Assert(c)
+	in.addFact(c)
 	if p.modelOK {
 		v, ok := in.evalModel(c)
 		if !ok || v != 1 {
@@ -155,6 +231,10 @@ func (in *Interp) decide(c *Term) bool {
 	if c.W != 0 {
 		panic("decide on non-bool")
 	}
+	if c.IsConst() {
+		return c.V == 1
+	}
+	c = in.simp(c)
 	if c.IsConst() {
 		return c.V == 1
 	}
@@ -313,6 +393,10 @@ func (in *Interp) assume(c *Term) {
 	if c.IsTrue() {
 		return
 	}
+	c = in.simp(c)
+	if c.IsTrue() {
+		return
+	}
 	if c.IsFalse() {
 		panic(pathEnd{EndAssumeFalse, "assume(false)"})
 	}
@@ -375,6 +459,7 @@ func normMsg(m string) string { return numRe.ReplaceAllString(m, "N") }
 
 // assertTerm checks a property; a counterexample is recorded and the path continues under the assertion.
 func (in *Interp) assertTerm(c *Term, msg, site string) {
+	c = in.simp(c)
 	if c.IsTrue() {
 		return
 	}
